@@ -56,6 +56,7 @@ def main():
                 in_rt = p in MachineModel._runtime_cache
                 mm = MachineModel(path_to_yaml=p)
                 print(json.dumps({"path": p, "fp": fingerprint(mm._data), "iv": mm._data.get("internal_version"),
+                                  "fpd": fingerprint({k: v for k, v in mm._data.items() if k != "internal_version"}),
                                   "was_in_runtime_cache": in_rt}), flush=True)
             except BaseException as e:  # noqa
                 print(json.dumps({"path": p, "error": type(e).__name__ + ": " + str(e)[:200]}), flush=True)
